@@ -72,7 +72,9 @@ def ecef(lon, lat, alt):
 
 def geometric_zenith(reader, times_ms, lons, lats):
     from pyorbital.orbital import Orbital
-    tle1, tle2 = reader.get_tle_lines()
+    # element set chosen here by brute force (nearest epoch to the first line), not by the reader
+    tle_path = __import__("os").path.join(reader.tle_dir, reader.tle_name % {"satname": reader.spacecraft_name})
+    tle1, tle2 = impl.nearest_tle(tle_path, int(times_ms[0]))
     orb = Orbital(reader.spacecrafts_orbital[reader.spacecraft_id], line1=tle1, line2=tle2)
     t = np.array(times_ms, dtype="datetime64[ms]")
     slon, slat, salt = orb.get_lonlatalt(t)
@@ -291,8 +293,6 @@ def part_c(res, rng, tier, seed, d):
         except Exception:  # noqa
             aged_dir = None
         states = [("available", dict(tle_dir=tle_dir, tle_name=tle_name, tle_thresh=40000))]
-        if aged_dir:
-            states.append(("%.1f days old" % abs(age), dict(tle_dir=aged_dir, tle_name="TLE_%(satname)s.txt")))
         for tle_state, kw in states + [(
                               "too old", dict(tle_dir=tle_dir, tle_name=tle_name, tle_thresh=1e-6)),
                               ("absent", dict(tle_dir=d, tle_name="no_such_%(satname)s.txt"))]:
@@ -327,7 +327,7 @@ def part_c(res, rng, tier, seed, d):
                                        dict(ctx2, array=["sat_azi", "sat_zenith", "sun_azi", "sun_zenith", "rel_azi"][k],
                                             max_difference=float(np.nanmax(np.abs(ang[k] - ang_again[k]))))))
             sat_zen = ang[1]
-            if tle_state == "available":
+            if tle_state.startswith("available"):
                 zen_ref = geometric_zenith(probe, times_ms, lons, lats)
                 dz = np.abs(sat_zen - zen_ref)
                 res.notes["worst_sat_zenith_deg"] = max(res.notes.get("worst_sat_zenith_deg", 0.0), float(np.nanmax(dz)) if np.nanmax(dz) <= 0.5 else 0.0)
